@@ -64,6 +64,17 @@ impl DetectProp for C02 {
     }
     fn directed(&self, thorough: bool) -> Vec<Case> {
         let mut v = large_unicode_cases(thorough);
+        // stateful 7-bit encoding cut inside an escape sequence / a two-byte character, probed first
+        for (k, b) in truncated_escape_cases().into_iter().enumerate() {
+            if !thorough && k % 3 != 1 {
+                continue; // quick tier: the "well-formed text + cut escape" variants only
+            }
+            let mut s = Sett::default();
+            if (k / 3) % 2 == 0 {
+                s.incl = vec!["iso-2022-jp".into()];
+            }
+            v.push(Case { bytes: b, sett: s, tag: "directed:truncated-escape".into() });
+        }
         // > 1 MB ASCII with a non-ASCII byte in the tail, trace logger on (the repaired unwrap_err site)
         let mut b: Vec<u8> = std::iter::repeat(*b"plain ascii text, nothing to see here. ").take(1_000_100 / 39 + 1).flatten().collect();
         b.truncate(1_000_100);
